@@ -94,6 +94,10 @@ fn check_one(l: &mut Local, s: &str, o: usize, class: &str) {
 pub const ALPHABET_MAX: [&str; 6] = ["\n", "\r", "\u{7f}", "\u{7ff}", "\u{ffff}", "\u{10ffff}"];
 pub const ALPHABET_MIN: [&str; 6] = ["\n", "\r", "\u{80}", "\u{800}", "\u{10000}", "\u{bf}"];
 
+/// Characters whose code point, truncated to its low byte, is LF or CR (U+010A, U+010D, U+4E0A,
+/// U+1F60A): a comparison done on a truncated or partially decoded value mistakes them for line breaks.
+pub const ALPHABET_LOW: [&str; 6] = ["\n", "\r", "\u{10a}", "\u{10d}", "\u{4e0a}", "\u{1f60a}"];
+
 pub fn run(col: &Collector, thorough: bool, seed: u64, jobs: usize) -> Value {
     let max_len = crate::max_len_override().unwrap_or(if thorough { 8 } else { 7 });
     let extra_len = crate::max_len_override().unwrap_or(if thorough { 6 } else { 5 });
@@ -101,7 +105,7 @@ pub fn run(col: &Collector, thorough: bool, seed: u64, jobs: usize) -> Value {
     vutil::run_workers(jobs, col, |w, n| {
         let mut l = Local::new();
         let mut s = String::new();
-        for (alphabet, limit, class) in [(&ALPHABET, max_len, "exhaustive"), (&ALPHABET_MAX, extra_len, "exhaustive-max-of-class"), (&ALPHABET_MIN, extra_len, "exhaustive-min-of-class")] {
+        for (alphabet, limit, class) in [(&ALPHABET, max_len, "exhaustive"), (&ALPHABET_MAX, extra_len, "exhaustive-max-of-class"), (&ALPHABET_MIN, extra_len, "exhaustive-min-of-class"), (&ALPHABET_LOW, extra_len, "exhaustive-low-byte-is-a-line-break")] {
             for len in 0..=limit {
                 let total = vutil::pow(k, len);
                 let mut idx = w as u64;
